@@ -4,7 +4,7 @@
 #![allow(dead_code, clippy::all)]
 use std::io::Write;
 
-include!(concat!(env!("BINDGEN_SRC"), "/codegen/bitfield_unit.rs"));
+include!(env!("BINDGEN_BF_FILE"));
 include!("bf_const_cases.rs");
 
 struct Rng(u64);
